@@ -141,6 +141,13 @@ def _mirsym():
             ["engine::operators::merge_keep::merge_keep_nullable", "bitvec::BitVec::is_set", "bitvec::BitVecMut::set"],
             bounds="every ops string of length <= 3 (quick) / <= 4 plus three 9-row strings crossing a bitmap byte (thorough); values and bitmap bytes symbolic",
             spec=sm.MergeKeepNullableSpec())
+    for pid, tag in (("C02", "C02.c"), ("C05", "C05.c")):
+        add(f"{tag}/partition", pid, "mirsym", Q, "partition::<T,C>(l, r, limit): runs of equal first sort keys in merged order, strictly increasing, maximal, covering all rows (or at least `limit` rows)",
+            ["engine::operators::partition::partition"], bounds="|l|+|r| <= 4 (quick) / <= 5 (thorough), keys and limit symbolic; i64 asc, u8 desc (+ more key types thorough)", spec=sm.PartitionSpec())
+        add(f"{tag}/subpartition", pid, "mirsym", Q, "subpartition(partitioning, l, r): each first-key run refined into maximal runs of equal second keys in merged order",
+            ["engine::operators::subpartition::subpartition"], bounds="6 (quick) / 11 (thorough) fixed run structures with up to 5 rows; second-key values symbolic, sorted within each run", spec=sm.SubpartitionOpSpec())
+        add(f"{tag}/merge_partitioned", pid, "mirsym", Q, "merge_partitioned(partitioning, l, r, limit): inside every first-key run the second keys are merged stably (left before right on ties), ops records the interleaving, length == min(limit, total)",
+            ["engine::operators::merge_partitioned::merge_partitioned"], bounds="6 (quick) / 11 (thorough) fixed run structures with up to 5 rows; second-key values and limit symbolic", spec=sm.MergePartitionedSpec())
     for pid, tag in (("C02", "C02.b"), ("C04", "C04.d")):
         add(f"{tag}/merge_deduplicate", pid, "mirsym", Q,
             "merge_deduplicate on strictly increasing group keys: strictly increasing union, each key once; MergeOps replay reproduces it (MergeRight iff equal keys)",
